@@ -3448,6 +3448,10 @@ class AbsInt:
         if isinstance(e.func, ast.Name) and e.func.id == 'hasattr' and 'hasattr' not in env and len(args) == 2 \
                 and hasattr(args[0], 'absint_hasattr') and isinstance(args[1], str):
             return args[0].absint_hasattr(args[1])
+        if isinstance(e.func, ast.Name) and e.func.id == 'hasattr' and 'hasattr' not in env and len(args) == 2 \
+                and isinstance(args[1], str) and (args[0] is None or type(args[0]) in (str, bytes, int, float, bool, complex)):
+            # a concrete plain value (a file name, a number): the language's own answer
+            return hasattr(args[0], args[1])
         if isinstance(e.func, ast.Name) and e.func.id == 'type' and 'type' not in env and len(args) == 1:
             if isinstance(args[0], AObj) and args[0].cls is not None:
                 return ClassRef(args[0].cls)
@@ -4015,6 +4019,8 @@ class AbsInt:
             if not args:
                 return AList([], f.__name__)
             src = args[0]
+            if f is bytes and len(args) == 1 and not kwargs and getattr(src, 'py_type', None) == 'bytes':
+                return src              # bytes(b) of an immutable bytes value is that value
             if f in (bytearray, bytes) and isinstance(src, int) and not isinstance(src, bool) and 0 <= src <= 4096:
                 return AList([0] * src, f.__name__)         # bytearray(5) is five zero bytes, not an error
             if isinstance(src, AList) and src.kind == 'array' and f in (bytearray, bytes):
